@@ -65,7 +65,8 @@ def gen_c07(rng, tier):
 
 
 def gen_c08(rng, tier):
-    return gen2.gen_c08(rng, B(tier, 500, 8000)) + gen2.gen_overflow_block(rng, B(tier, 60, 600))
+    return (gen2.gen_c08(rng, B(tier, 500, 8000)) + gen2.gen_overflow_block(rng, B(tier, 60, 600)) +
+            gen2.gen_offset_block(rng, B(tier, 60, 600)))
 
 
 def gen_c09(rng, tier):
